@@ -296,7 +296,8 @@ def insertById (x : Nat × Bytes) : List (Nat × Bytes) → List (Nat × Bytes)
 def parseDir (s : String) : Option (List (Nat × Bytes)) :=
   if s = "-" then some [] else
   (s.splitOn ",").foldlM (fun acc f =>
-    match f.splitOn ":" with
+    -- `path:size:seed[:l]`; `l` = the harness stores the file elsewhere and links to it (same content for the client)
+    match (f.splitOn ":").take 3 with
     | [path, size, seed] =>
       match size.toNat?, seed.toNat? with
       | some sz, some sd =>
